@@ -99,6 +99,14 @@ impl CodeMap {
         self.files.iter().find(|file_map| file_map.name() == file)
     }
 
+    /// The most recently added file named `file` that holds exactly `source`
+    pub fn find_file_with_source(&self, file: &str, source: &str) -> Option<&Arc<FileMap>> {
+        self.files
+            .iter()
+            .rev()
+            .find(|file_map| file_map.name() == file && file_map.source() == source)
+    }
+
     pub fn get(&self, file_id: FileId) -> Option<&Arc<FileMap>> {
         let i = self.find_index(file_id)?;
         self.files.get(i)
